@@ -211,3 +211,57 @@ func Harness_C08_ResultOrderBlockedCaller() {
 	vAssert("no-spurious-interrupt", nint == 0)
 	vCover("blocked-caller-order-checked(virtual-time)")
 }
+
+// Stall exploration of the ordering between a request's reply and the first
+// traffic it enables: the handler serving a SUBSCRIBE (REGISTER) is
+// descheduled after its k-th synchronisation operation while another session
+// publishes (calls); the subscriber (callee) still sees SUBSCRIBED
+// (REGISTERED) before the first EVENT (INVOCATION).
+func Harness_C08_ReplyBeforeTrafficStall() {
+	r := vNewRouter(&Config{RealmConfigs: []*RealmConfig{{URI: "realm1", AnonymousAuth: true}}})
+	s := vAttach(r, "realm1", nil, 64)
+	p := vAttach(r, "realm1", nil, 64)
+	vAssert("attached", s != nil && p != nil)
+	rpc := vBool("rpc")
+	k := vChoice("stall-after", 5)
+	fn := "subscribe"
+	if rpc {
+		fn = "register"
+	}
+	vStallFunc(fn, k)
+	sent := make(chan struct{})
+	go func() {
+		defer close(sent)
+		if rpc {
+			s.send(&wamp.Register{Request: 1, Procedure: "proc"})
+		} else {
+			s.send(&wamp.Subscribe{Request: 1, Topic: "topic"})
+		}
+	}()
+	vQuiesce()
+	// the other session's traffic, possibly repeated
+	for i := 0; i < 2; i++ {
+		if rpc {
+			p.send(&wamp.Call{Request: wamp.ID(10 + i), Procedure: "proc"})
+		} else {
+			p.send(&wamp.Publish{Request: wamp.ID(10 + i), Topic: "topic", Arguments: wamp.List{i}})
+		}
+	}
+	vQuiesce()
+	vStallRelease()
+	vQuiesce()
+	<-sent
+	replied := false
+	for _, m := range s.drain() {
+		switch m.(type) {
+		case *wamp.Subscribed, *wamp.Registered:
+			replied = true
+		case *wamp.Event:
+			vAssert("subscribed-before-first-event", replied)
+		case *wamp.Invocation:
+			vAssert("registered-before-first-invocation", replied)
+		}
+	}
+	vAssert("request-answered", replied)
+	vCover("reply-before-traffic-checked")
+}
